@@ -7,8 +7,9 @@
 
    Vocabulary (Model/Call.v):
      shape            Unary | ClientStreaming | ServerStreaming | Bidi
-     side             the limits and buffer settings of a client / a server (any values)
-     request_headers md / request_frames cl src   what client::Grpc puts on the wire
+     side             the configuration of a client::Grpc / server::Grpc: both size limits and
+                      the buffer settings (any values), the compression settings ([plain] = none)
+     request_headers cl md / request_frames cl src   what client::Grpc puts on the wire
      server_receive   server::Grpc::map_request_unary / map_request_streaming + the handler
                       draining its request stream: what the handler is called with
      hscript          the handler's behaviour: HUnary (Ok (md, m) | Err st),
@@ -39,13 +40,15 @@ Theorem c02_request_unary :
   forall (msg : Type) (ser : msg -> option (list N)) (deser : list N -> option msg)
          (compress : encoding -> list N -> list N) (decompress : encoding -> list N -> option (list N)),
     (forall m p, ser m = Some p -> deser p = Some m) ->
-    forall (cl sv : side) (sh : shape) (md : hm) (m : msg) (p : list N) (script : list bev) (fuel : nat),
-      req_streaming sh = false ->
+    forall (cl sv : side) (sh : shape) (md : hm) (m : msg) (p : list N) (script : list bev)
+           (reads : option nat) (fuel : nat),
+      plain cl -> req_streaming sh = false ->
       Encoder.encodes ser compress (cfg_of cl) m p -> nlen p <= dec_limit (max_dec sv) ->
       hm_get_all md hdr_grpc_encoding = [] ->
       carries (request_frames msg ser compress cl [Encoder.SItem (Encoder.IOk m)]) script ->
       (length script + 2 <= fuel)%nat ->
-      exists md', server_receive msg deser decompress sv sh (request_headers md) script fuel = SeenUnary md' m /\
+      exists qh md', request_headers cl md = Some qh /\
+        server_receive msg deser decompress sv sh qh script reads fuel = SeenUnary md' m /\
         forall k, Metadata.is_reserved k = false -> hm_get_all md' k = hm_get_all md k.
 Proof. exact request_unary. Qed.
 
@@ -58,49 +61,74 @@ Theorem c02_request_stream :
     (forall m p, ser m = Some p -> deser p = Some m) ->
     forall (cl sv : side) (sh : shape) (md : hm) (src : list (Encoder.sevent msg))
            (ms : list msg) (ps : list (list N)) (script : list bev) (fuel : nat),
-      req_streaming sh = true ->
+      plain cl -> req_streaming sh = true ->
       Encoder.items_of src = map Encoder.IOk ms ->
       Forall2 (Encoder.encodes ser compress (cfg_of cl)) ms ps ->
       Forall (fun p => nlen p <= dec_limit (max_dec sv)) ps ->
       hm_get_all md hdr_grpc_encoding = [] ->
       carries (request_frames msg ser compress cl src) script ->
       (length script + length ms + 2 <= fuel)%nat ->
-      exists md', server_receive msg deser decompress sv sh (request_headers md) script fuel = SeenStream md' ms EndOk /\
+      exists qh md', request_headers cl md = Some qh /\
+        server_receive msg deser decompress sv sh qh script None fuel = SeenStream md' ms EndOk /\
         forall k, Metadata.is_reserved k = false -> hm_get_all md' k = hm_get_all md k.
 Proof. exact request_stream. Qed.
+
+(* ... and a handler that answers after calling message() only j times has been given exactly
+   the first j messages (cross-direction interleaving: what it answers is then subject to the
+   response theorems below, which do not depend on how much of the request was read) *)
+Theorem c02_request_stream_partial :
+  forall (msg : Type) (ser : msg -> option (list N)) (deser : list N -> option msg)
+         (compress : encoding -> list N -> list N) (decompress : encoding -> list N -> option (list N)),
+    (forall m p, ser m = Some p -> deser p = Some m) ->
+    forall (cl sv : side) (sh : shape) (md : hm) (src : list (Encoder.sevent msg))
+           (ms : list msg) (ps : list (list N)) (script : list bev) (j fuel : nat),
+      plain cl -> req_streaming sh = true ->
+      Encoder.items_of src = map Encoder.IOk ms ->
+      Forall2 (Encoder.encodes ser compress (cfg_of cl)) ms ps ->
+      Forall (fun p => nlen p <= dec_limit (max_dec sv)) ps ->
+      hm_get_all md hdr_grpc_encoding = [] ->
+      carries (request_frames msg ser compress cl src) script ->
+      (j <= length ms)%nat -> (length script + j + 1 <= fuel)%nat ->
+      exists qh md', request_headers cl md = Some qh /\
+        server_receive msg deser decompress sv sh qh script (Some j) fuel =
+          SeenStream md' (firstn j ms) EndUnread /\
+        forall k, Metadata.is_reserved k = false -> hm_get_all md' k = hm_get_all md k.
+Proof. exact request_stream_partial. Qed.
 
 (* the server answers an accepted request with what the handler produced *)
 Theorem c02_server_answers_with_handler :
   forall (msg : Type) (ser : msg -> option (list N)) (deser : list N -> option msg)
          (compress : encoding -> list N -> list N) (decompress : encoding -> list N -> option (list N))
-         (sv : side) (sh : shape) (headers : hm) (script : list bev) (h : hscript msg) (fuel : nat),
-    (exists md m, server_receive msg deser decompress sv sh headers script fuel = SeenUnary md m) \/
-    (exists md ms e, server_receive msg deser decompress sv sh headers script fuel = SeenStream md ms e) ->
-    snd (server_call msg ser deser compress decompress sv sh headers script h fuel) =
-    handler_response msg ser compress sv h.
+         (sv : side) (sh : shape) (headers : hm) (script : list bev) (reads : option nat)
+         (h : hscript msg) (fuel : nat),
+    (exists md m, server_receive msg deser decompress sv sh headers script reads fuel = SeenUnary md m) \/
+    (exists md ms e, server_receive msg deser decompress sv sh headers script reads fuel = SeenStream md ms e) ->
+    snd (server_call msg ser deser compress decompress sv sh headers script reads h fuel) =
+    handler_response msg ser compress sv headers h.
 Proof. exact server_call_accepts. Qed.
 
 (* ---- the client observes exactly what the handler produced --------------------------------- *)
 (* stream responses (ServerStreaming, Bidi): the handler returned Ok(md, stream); under any
    schedule the stream's items are messages ms followed by the end (fin = None) or by an item
    that ends the call with status st (fin = Some st: Err(st), possibly before the first
-   message).  For every transport: the client API returns Ok with the initial metadata, the
-   response stream yields exactly ms in order, then a clean end iff fin = None, otherwise ONE
-   error with st's code, message, details and exactly st's metadata minus the reserved names *)
+   message).  For every request head qh and every transport: the client API returns Ok with
+   the initial metadata, the response stream yields exactly ms in order, then a clean end iff
+   fin = None, otherwise ONE error with st's code, message, details and exactly st's metadata
+   minus the reserved names *)
 Theorem c02_response_stream :
   forall (msg : Type) (ser : msg -> option (list N)) (deser : list N -> option msg)
          (compress : encoding -> list N -> list N) (decompress : encoding -> list N -> option (list N)),
     (forall m p, ser m = Some p -> deser p = Some m) ->
-    forall (cl sv : side) (sh : shape) (md : hm) (src : list (Encoder.sevent msg))
-           (ms : list msg) (ps : list (list N)) (fin : option status) (script0 : list bev) (fuel : nat),
-      resp_streaming sh = true ->
+    forall (cl sv : side) (sh : shape) (qh md : hm) (src : list (Encoder.sevent msg))
+           (ms : list msg) (ps : list (list N)) (fin : option status) (fuel : nat),
+      plain sv -> resp_streaming sh = true ->
       Encoder.outcome ser compress (cfg_of sv) (Encoder.items_of src) ms ps fin ->
       Forall (fun p => nlen p <= dec_limit (max_dec cl)) ps ->
       hm_get_all md hdr_grpc_encoding = [] ->
       (forall st, fin = Some st ->
          well_formed st /\ utf8_valid (st_msg st) = true /\
          hm_get_all (st_md st) hdr_grpc_status_details = [] /\ st_code st <> Code_Ok) ->
-      exists w, handler_response msg ser compress sv (HStream (inl (md, src))) = Some w /\
+      exists w, handler_response msg ser compress sv qh (HStream (inl (md, src))) = Some w /\
         forall script, carries (wr_frames w) script -> (length script + length ms + 2 <= fuel)%nat ->
         exists md' e,
           client_call msg deser decompress cl sh (wr_http w) (wr_headers w) script fuel = CRStream md' ms e /\
@@ -118,31 +146,31 @@ Theorem c02_response_unary :
   forall (msg : Type) (ser : msg -> option (list N)) (deser : list N -> option msg)
          (compress : encoding -> list N -> list N) (decompress : encoding -> list N -> option (list N)),
     (forall m p, ser m = Some p -> deser p = Some m) ->
-    forall (cl sv : side) (sh : shape) (md : hm) (m : msg) (p : list N) (fuel : nat),
-      resp_streaming sh = false ->
+    forall (cl sv : side) (sh : shape) (qh md : hm) (m : msg) (p : list N) (fuel : nat),
+      plain sv -> resp_streaming sh = false ->
       Encoder.encodes ser compress (cfg_of sv) m p -> nlen p <= dec_limit (max_dec cl) ->
       hm_get_all md hdr_grpc_encoding = [] ->
-      exists w, handler_response msg ser compress sv (HUnary (inl (md, m))) = Some w /\
+      exists w, handler_response msg ser compress sv qh (HUnary (inl (md, m))) = Some w /\
         forall script, carries (wr_frames w) script -> (length script + 3 <= fuel)%nat ->
         exists md',
           client_call msg deser decompress cl sh (wr_http w) (wr_headers w) script fuel = CRUnary md' m /\
           forall k, Metadata.is_reserved k = false -> hm_get_all md' k = hm_get_all md k.
 Proof. exact response_unary. Qed.
 
-(* error before the first message, all four shapes: the handler returned Err(st).  The response
-   is trailers-only (no body frames); whatever the transport does with the (empty) body, the
-   client API returns Err with st's code, message, details and, under every non-reserved name,
-   exactly st's metadata values *)
+(* error before the first message, all four shapes, any sides: the handler returned Err(st).
+   The response is trailers-only (no body frames); whatever the transport does with the (empty)
+   body, the client API returns Err with st's code, message, details and, under every
+   non-reserved name, exactly st's metadata values *)
 Theorem c02_early_error :
   forall (msg : Type) (ser : msg -> option (list N)) (deser : list N -> option msg)
          (compress : encoding -> list N -> list N) (decompress : encoding -> list N -> option (list N))
-         (cl sv : side) (sh : shape) (st : status) (h : hscript msg) (fuel : nat),
+         (cl sv : side) (sh : shape) (qh : hm) (st : status) (h : hscript msg) (fuel : nat),
     h = HUnary (inr st) \/ h = HStream (inr st) ->
     well_formed st -> utf8_valid (st_msg st) = true ->
     hm_get_all (st_md st) hdr_grpc_status_details = [] ->
     hm_get_all (st_md st) hdr_grpc_encoding = [] ->
     st_code st <> Code_Ok ->
-    exists w, handler_response msg ser compress sv h = Some w /\ wr_frames w = [] /\
+    exists w, handler_response msg ser compress sv qh h = Some w /\ wr_frames w = [] /\
       forall script, exists st',
         client_call msg deser decompress cl sh (wr_http w) (wr_headers w) script fuel = CRErr st' /\
         st_code st' = st_code st /\ st_msg st' = st_msg st /\ st_details st' = st_details st /\
@@ -153,7 +181,8 @@ Proof. exact early_error. Qed.
    the response stream yields is an error, returns it with the response headers merged in;
    per name the headers' values replace the status' values (MetadataMap::merge = extend).  No
    handler of the four shapes can produce both initial metadata and an error status in a unary
-   response, so this path carries tonic's own errors (e.g. a response message over the limit). *)
+   response, so this path carries tonic's own errors (a response message over the server's
+   max_encoding_message_size: kind limit.unary_merge of the harness reaches it). *)
 Theorem c02_unary_client_error_merge :
   forall (msg : Type) (deser : list N -> option msg) (decompress : encoding -> list N -> option (list N))
          (cl : side) (sh : shape) (http : N) (headers : hm) (script : list bev) (fuel : nat)
@@ -167,11 +196,33 @@ Theorem c02_unary_client_error_merge :
                 if hm_contains headers k then hm_get_all headers k else hm_get_all (st_md st) k.
 Proof. exact unary_error_merge. Qed.
 
+(* ---- the transport ---------------------------------------------------------------------------- *)
 (* the re-cutting of the harness is a member of the transport contract *)
 Theorem c02_transport_in_contract :
   forall (cuts pend : list N) (frames : list Encoder.bframe),
     (length (non_data frames) <= 1)%nat -> carries frames (transport cuts pend frames).
 Proof. exact transport_carries. Qed.
+
+(* Body::is_end_stream of EncodeBody (hyper asks it before every poll and never polls a body
+   that answered true): it is false for a fresh body, turns true only in the poll that hands out
+   the frame which is not DATA (the trailers), never for a client body; hence a consumer that
+   honours it receives exactly the frames of one that polls until None - the trailers are not
+   lost *)
+Theorem c02_end_stream_only_after_trailers :
+  forall (msg enc : Type) (ser : msg -> option (list N)) (compress : enc -> list N -> list N)
+         (c : Encoder.cfg enc) (b : Encoder.body_state) (src : list (Encoder.sevent msg))
+         (o : Encoder.body_out) (b' : Encoder.body_state) (src' : list (Encoder.sevent msg)),
+    Encoder.body_poll msg enc ser compress c b src = (o, b', src') ->
+    is_end_stream b = false -> is_end_stream b' = true ->
+    Encoder.b_role b = Encoder.Server /\ exists f, o = Encoder.BFrame f /\ is_fdata f = false.
+Proof. exact eos_step. Qed.
+
+Theorem c02_end_stream_loses_nothing :
+  forall (msg enc : Type) (ser : msg -> option (list N)) (compress : enc -> list N -> list N)
+         (c : Encoder.cfg enc) (n : nat) (b : Encoder.body_state) (src : list (Encoder.sevent msg)),
+    Encoder.frames_of (drive_eos msg enc ser compress c n b src) =
+    Encoder.frames_of (Encoder.body_trace msg enc ser compress c n b src).
+Proof. exact eos_loses_nothing. Qed.
 
 (* ---- non-vacuity ---------------------------------------------------------------------------- *)
 From Coq Require Import String.
@@ -203,15 +254,17 @@ Qed.
 (* ... and the whole call evaluated on it (request body cut after bytes 2 and 5, response body
    cut inside the prefix, Pending on both) *)
 Example c02_example_evaluates :
-  obs_call 3 ex_md [inl (Some [1]); inl None; inl (Some []); inl (Some [2; 3])] [2; 3] [1; 0; 1]
+  obs_call [] default_side default_side 3 ex_md
+           [inl (Some [1]); inl None; inl (Some []); inl (Some [2; 3])] [2; 3] [1; 0; 1] None
            (inl (ex_md, [inl (Some [9]); inl None; inr ex_st; inl (Some [7])])) [3] [0; 2] 40 =
   Nd [ result_obs (CRStream (response_headers ex_md) [[9]]
                      (EndErr (mkStatus 5 [110; 111; 32; 37; 195; 169] [0; 255; 7] [(bytes_of_string "x-e"%string, [119])])));
-       seen_obs (SeenStream (request_headers ex_md) [[1]; []; [2; 3]] EndOk) ].
+       seen_obs (SeenStream (plain_request_headers ex_md) [[1]; []; [2; 3]] EndOk) ].
 Proof. vm_compute. reflexivity. Qed.
 
 Print Assumptions c02_request_unary.
 Print Assumptions c02_request_stream.
+Print Assumptions c02_request_stream_partial.
 Print Assumptions c02_response_stream.
 Print Assumptions c02_response_unary.
 Print Assumptions c02_early_error.
